@@ -32,4 +32,15 @@ def sortAdvLine (toks : Array String) : List Msg :=
         else [{ cls := "MIRROR-MISMATCH", op := "sortadv", kind := "order", detail := s!"{kind} input of {n} keys: sorter mirror gives {mirror}, implementation {out}" }]
   | _ => []
 
+/-- Section "conc": every operation must return together what it returns alone. -/
+def concLine (toks : Array String) : List Msg :=
+  match toks[0]? with
+  | some "CC" =>
+    let n := (toks[1]?.bind String.toNat?).getD 0
+    let bad := (List.range n).filter (fun i => toks[2 + 2 * i]? != toks[3 + 2 * i]?)
+    if toks.size != 2 + 2 * n then [{ cls := "DRIVER-ERROR", op := "conc", kind := "parse", detail := "bad CC line" }]
+    else if bad.isEmpty then (List.range n).map (fun _ => { cls := "OK", op := "conc", kind := "", detail := "" })
+    else [{ cls := "SPEC-MISMATCH", op := "conc", kind := "result", detail := s!"operations {bad} of a batch of {n} returned something else when run concurrently than when run alone" }]
+  | _ => []
+
 end QF.Drv
